@@ -41,6 +41,9 @@ type WriteOut struct {
 	NV4   int    `json:"nv4"`
 	NV6   int    `json:"nv6"`
 	Drops uint64 `json:"drops"`
+	// Bulk adds that many regular IPv4 flows (same addresses and protocol, consecutive ports, equal counters):
+	// realistic repetitive data whose columns are stored COMPRESSED (no re-encode with the null encoder)
+	Bulk int `json:"bulk,omitempty"`
 }
 
 // Flow is one generated flow (also the row form the reader child reports)
@@ -78,6 +81,11 @@ func (w WriteOut) Flows() []Flow {
 			Dport: uint16(1 + (id*131+u*17)%60000), Proto: []uint8{6, 17, 1}[(id+u)%3],
 			BR: 100 + id*1000 + u, BS: 7 + id + u*3, PR: 1 + u, PS: 2 + id%5})
 	}
+	for i := 0; i < w.Bulk; i++ {
+		fl = append(fl, Flow{V4: true,
+			SIP: fmt.Sprintf("10.9.%d.1", id%200), DIP: "192.168.77.1",
+			Dport: uint16(1000 + i), Proto: 6, BR: 1500, BS: 60, PR: 2, PS: 1})
+	}
 	for i := 0; i < w.NV6; i++ {
 		u := uint64(i)
 		fl = append(fl, Flow{V4: false,
@@ -91,7 +99,7 @@ func (w WriteOut) Flows() []Flow {
 
 // Tot is the contribution of the write-out to the day totals
 func (w WriteOut) Tot() Totals {
-	t := Totals{V4: uint64(w.NV4), V6: uint64(w.NV6), Drops: w.Drops}
+	t := Totals{V4: uint64(w.NV4 + w.Bulk), V6: uint64(w.NV6), Drops: w.Drops}
 	for _, f := range w.Flows() {
 		t.BR += f.BR
 		t.BS += f.BS
